@@ -90,7 +90,10 @@ func (a *IBCAdapter) ParsePacket(
 		return nil, core.ErrNoOrbiterPacket.Wrap("data is not ICS20 packet")
 	}
 
-	if packet.GetReceiver() != core.ModuleAddress.String() {
+	// Compare the decoded address, not its spelling: every valid encoding of the module
+	// address (e.g. upper case bech32) is credited to the module account by ICS20.
+	receiver, err := sdk.AccAddressFromBech32(packet.GetReceiver())
+	if err != nil || !receiver.Equals(core.ModuleAddress) {
 		return nil, core.ErrNoOrbiterPacket.Wrap("receiver is not Orbiter module")
 	}
 
